@@ -435,6 +435,42 @@ def real_split_bracket(word, brackets):
 
 LABELS = ["L0", "L1", "LOOP", "EXIT", "a", "a1", "IF_EXIT_2"]
 
+# adversarial label names: families whose members are easy to confuse
+LABEL_FAMILIES = [
+    ["retry", "RETRY", "Retry", "rETRY"],                 # differ only in case
+    ["exit", "EXIT", "Exit"],
+    ["L", "L1", "L10", "L100", "L_1", "L1_"],             # one a prefix / suffix of another
+    ["loop", "loop_", "loop_exit", "exit_loop", "oop"],
+    ["a", "aa", "aA", "Aa", "a0", "a_0", "a__0"],          # digits and underscores
+    ["x9_", "x_9", "x9", "X9"],
+    ["set", "jmp", "add", "SET", "Jmp", "ret_reg", "array"],   # equal to mnemonics
+    ["x" * 64, "x" * 65, "X" * 64, "x" * 300],              # very long
+    ["IF_EXIT", "IF_EXIT1", "IF_EXIT11", "IF_EXIT_1", "LOOP_EXIT", "LOOP_EXIT1"],   # what the SDK emits
+]
+# names that are variable names but read as a REGISTER when used as an operand in TEXT
+# (`jmp R1` is a register operand): legal for IR input (Label objects), not referable in text
+REGISTER_LIKE = ["R1", "Q0", "M0", "C15", "R10", "R01"]
+
+
+def pick_labels(rng, n, text_safe=False):
+    """`n` distinct label names; mostly from one or two confusable families"""
+    if n == 0:
+        return []
+    r = rng.random()
+    if r < 0.25:
+        pool = list(LABELS)
+    else:
+        pool = list(rng.choice(LABEL_FAMILIES))
+        if rng.random() < 0.4:
+            pool += rng.choice(LABEL_FAMILIES)
+        if not text_safe and rng.random() < 0.3:
+            pool += REGISTER_LIKE
+        if rng.random() < 0.3:
+            pool += LABELS
+    pool = list(dict.fromkeys(pool))
+    rng.shuffle(pool)
+    return pool[:n]
+
 
 def gen_value(rng, small=True):
     if small:
@@ -496,14 +532,14 @@ def move_args(rng, cmd):
     return cmd
 
 
-def gen_std_program(rng, max_len=25):
+def gen_std_program(rng, max_len=25, text_safe=False):
     """A program over the instructions in scope that means something: registers are mostly
     initialised, arrays declared, branch targets are labels, loops are counted."""
     pool = Pool(rng)
     p_lit = rng.choice([0.2, 0.5, 0.8])
     n = rng.randrange(1, max_len + 1)
     n_labels = rng.choice([0, 1, 2, 3, 4])
-    labels = rng.sample(LABELS, n_labels) if n_labels else []
+    labels = pick_labels(rng, n_labels, text_safe)
     prog = []
     # prologue: initialise most registers, declare and fill arrays
     p_init = rng.choice([0.6, 1.0, 1.0, 1.0])
@@ -585,7 +621,7 @@ def vanilla_shapes():
 _SHAPES = None
 
 
-def gen_wild_program(rng, max_len=14):
+def gen_wild_program(rng, max_len=14, text_safe=False):
     """Any vanilla instruction, operands that mostly fit the shape but literals, labels,
     templates and wrong kinds anywhere; duplicate / undefined labels; all 16 registers."""
     global _SHAPES
@@ -593,7 +629,7 @@ def gen_wild_program(rng, max_len=14):
         _SHAPES = vanilla_shapes()
     pool = Pool(rng)
     p_lit = rng.choice([0.1, 0.4, 0.7])
-    labels = rng.sample(LABELS, rng.randrange(1, 4))
+    labels = pick_labels(rng, rng.randrange(1, 4), text_safe)
     all_labels = list(labels)
     prog = []
     mns = sorted(_SHAPES) + ["crot_x"]  # crot_x: a GenericInstr without a vanilla class
